@@ -770,7 +770,8 @@ fn push_prefix(
     let mut child = None;
     if let Some(node) = node {
         for it in &mut node.children {
-            if it.label == *label {
+            /* A compression pointer can only reach the first 16KiB of a message. */
+            if it.label == *label && it.data < 0x4000 {
                 child = Some(&mut *it);
             }
         }
